@@ -5,7 +5,7 @@ trusted_base; conformance tests against the installed libraries live in vlib/con
 import z3
 from fractions import Fraction
 from .types import (NArr, SList, SDict, SSet, Rec, Opt, CList, FuncRef, ModRef, Unsupported, is_sym, R, I, B, S,
-                    TInt, TReal, TBool, slist_get, to_slist)
+                    TInt, TReal, TBool, slist_get, to_slist, key_sort_of)
 from . import ops
 from .ops import F, b_and, b_or, b_not, truth, values_equal
 
@@ -874,3 +874,29 @@ def _attributes_match(eng, node, attributes, template_attributes, ignore_keys=()
         if not (isinstance(v, Rec) and "_id" in v.fields):
             raise Unsupported("attributes_match on a mapping without a ghost identity field `_id`")
     return attr_match_fn(ign)(attributes.fields["_id"], template_attributes.fields["_id"])
+
+
+@reg("networkx.get_node_attributes")
+def _nx_get_node_attributes(eng, node, graph, name):
+    """{n: data[name] for the nodes that have the attribute}"""
+    if not (isinstance(graph, Rec) and "nodes" in graph.fields and isinstance(name, str)):
+        raise Unsupported("get_node_attributes on something that is not a modelled graph")
+    nd = graph.fields["nodes"]
+    if name not in nd.v.fields:
+        raise Unsupported(f"get_node_attributes: the node record has no field {name!r}")
+    ks = key_sort_of(nd.k)
+    kx = z3.Const("_gna", ks)
+    attrs = nd.v.unflat([c[kx] for c in nd.comps])
+    f = attrs.fields[name]
+    ft = nd.v.fields[name]
+    if isinstance(f, Opt):
+        dom = z3.Lambda([kx], z3.And(nd.dom[kx], z3.Not(f.none)))
+        val, vt = f.val, ft.t
+    else:
+        dom, val, vt = nd.dom, f, ft
+    return SDict(nd.k, vt, dom, [z3.Lambda([kx], x) for x in vt.flat(val)])
+
+
+@reg("vermouth.molecule.Interaction")
+def _interaction(eng, node, atoms=(), parameters=(), meta=None):
+    return Rec("Interaction", {"atoms": tuple(eng.concrete_or_fail(atoms))})
